@@ -13,7 +13,12 @@ class LearnableThermometerThresholding(nn.Module):
         init_t = torch.tensor(init_thresholds, dtype=torch.float32)
         first = init_t[:1]
         diffs = torch.diff(init_t, prepend=first.new_zeros(1))
-        self.raw_diffs = nn.Parameter(diffs)
+        if (diffs <= 0).any():
+            raise ValueError("init_thresholds must be positive and strictly increasing")
+        # get_thresholds() applies softplus to the stored increments, so store its inverse
+        # log(exp(d) - 1) (= d for large d) to start exactly at init_thresholds
+        raw = torch.where(diffs > 20.0, diffs, torch.log(torch.expm1(diffs)))
+        self.raw_diffs = nn.Parameter(raw)
 
     def get_thresholds(self):
         if self._frozen:
